@@ -210,7 +210,7 @@ Print Assumptions C08_getcol_reads_payload.
 
 (* whole-column assignment, one value per atom: the column reads back the values, the other three columns and
    all atoms outside the container keep their payload (stated for containers without a repeated atom and at
-   least two atoms; the one-value broadcast form and repeated atoms are correspondence-only) *)
+   least two atoms; for a container holding an atom twice the later value wins: correspondence-only) *)
 Theorem C08_setcol_refines_partial : forall h c tags w old L, Inv w -> get_struct w h = Some (old, L) -> NoDup old ->
   length tags = length old -> 2 <= length old ->
   let w' := fst (step current (SetCol h c tags) w) in
@@ -219,6 +219,15 @@ Theorem C08_setcol_refines_partial : forall h c tags w old L, Inv w -> get_struc
   (forall b, ~ In b old -> tag_of w' b = tag_of w b).
 Proof. exact setcol_refines. Qed.
 Print Assumptions C08_setcol_refines_partial.
+
+(* the one-value (scalar / broadcast) form, for any container, also one holding an atom twice *)
+Theorem C08_setcol_broadcast_refines : forall h c t w old L, Inv w -> get_struct w h = Some (old, L) -> old <> [] ->
+  let w' := fst (step current (SetCol h c [t]) w) in
+  (forall a, In a old -> get_col c (tag_of w' a) = t) /\
+  (forall c' a, c' <> c -> get_col c' (tag_of w' a) = get_col c' (tag_of w a)) /\
+  (forall b, ~ In b old -> tag_of w' b = tag_of w b).
+Proof. exact setcol_broadcast_refines. Qed.
+Print Assumptions C08_setcol_broadcast_refines.
 
 (* s.sort(key=column, reverse=rev) (inherited from list): the same atom objects, permuted, ordered by the key;
    heap and lattices untouched *)
